@@ -150,7 +150,7 @@ Str2Res(s, why) == IF s = "ok" THEN ROk ELSE IF s = "skip" THEN RSkip ELSE RBad(
 \* ---------------------------------------------------------------- the walk event
 \* a = << x, y, -y, t, 1 - t >>;  slerp, rev, mix, short, fast: results for (x, y), (x, -y);  lerp: the same for 0 <= j <= m (else empty)
 \* spin: spin counts ks[i] on (x, y);  spinn: spin counts ksn[i] on (x, -y);  qm, ql: slerp and mix of the mediump / lowp instantiations on (x, y)
-\* squad: squad(cur_0, cur_m, cur_2, cur_(m+2), t) for 0 <= j <= m;  inter: intermediate(cur_(j-pa), cur_j, cur_(j+pb)) for
+\* squad: squad(cur_0, cur_m, cur_(m^2), cur_(m^2+m), t) for 0 <= j <= m (acute walks only);  inter: intermediate(cur_(j-pa), cur_j, cur_(j+pb)) for
 \* (pa, pb) = (1,1) (1,5) (5,1) (2,2) at some j
 InterArgs == << <<1, 1>>, <<1, 5>>, <<5, 1>>, <<2, 2>> >>
 WalkEv(ev) ==
@@ -186,22 +186,17 @@ WalkEv(ev) ==
         Spin(obsW, k) == IF k < -3 \/ k > 3 \/ (k # 0 /\ noArc) THEN "skip"
                          ELSE IF k = 0 /\ ~(ObsAllFin(obsW) /\ ObsAllFin(ev.slerp[1]) /\ \A i \in 1..4 : DNear(ObsD(obsW[i]), ObsD(ev.slerp[1][i]), DMul2k(EpsD(t), 6))) THEN "bad"
                          ELSE Short(obsW, k, "spin")
-        \* squad = mix(cur_j, cur_(j+2), 2 h (1 - h)): q1 at h = 0, q2 at h = 1, cur_(j+1) at h = 1/2, a unit quaternion of the plane
-        \* between x and cur_(j+2) otherwise; judged when all the angles involved are acute
-        a1 == ArcAng(w, 1)
-        a2 == ArcAng(w, 2)
+        \* squad(cur_0, cur_m, cur_sa, cur_(sa+m), h) with sa = m^2 is mix(cur_j, cur_(j+sa), 2 h (1 - h)) = cur_(j + 2 j (m - j)): q1 at h = 0,
+        \* q2 at h = 1; judged when all the angles involved are acute: m^2 psi < pi/2, guaranteed by 4 m^2 p <= 3 q (tan x >= x)
         Squad(obsW) ==
-            IF WP(w) = 0 \/ WP(w) >= WQ(w) \/ ZSign(a2.c) <= 0 \/ ZSign(th.c) <= 0 THEN "skip"
+            IF ~(WP(w) > 0 /\ WP(w) < 1048576 /\ (4 * m * m * WP(w) + 2) \div 3 <= WQ(w) /\ 0 <= j /\ j <= m) THEN "skip"
             ELSE IF ~ObsAllFin(obsW) THEN "bad"
-            ELSE LET obs == ObsSeq(obsW) IN
-                 IF j = 0 \/ j = m THEN (IF NearPt2(obs, PlanePt(w, aj), 4 - Mb(t)) THEN "ok" ELSE "bad")
-                 ELSE IF 2 * j = m THEN (IF NearPt2(obs, PlanePt(w, AngAdd(aj, a1)), 7 - Mb(t)) THEN "ok" ELSE "bad")
-                 ELSE LET far == AngAdd(aj, a2) IN
-                      IF /\ InPlane(w, obs, QAdd(TolEps(t, 128), TolOverSin(t, 128, a1))) /\ UnitNorm(obs, TolEps(t, 512))
-                         /\ QLe(QSub(QMk(far.c, far.h), TolEps(t, 128)), CoefX(w, obs)) /\ QLe(QNeg(TolEps(t, 128)), CoefN(w, obs))
-                      THEN "ok" ELSE "bad"
+            ELSE LET d == 2 * j * (m - j)
+                     E == IF d = 0 THEN aj ELSE AngAdd(aj, ArcAng(w, d))
+                 IN IF NearPt2(ObsSeq(obsW), PlanePt(w, E), (IF d = 0 THEN 4 ELSE 7) - Mb(t)) THEN "ok" ELSE "bad"
         \* intermediate(cur_(j-pa), cur_j, cur_(j+pb)) = exp(-(log r^pb + log r^-pa)/4) cur_j = cur_(j - (pb-pa)/4); judged when
         \* 2 max(pa, pb) psi < pi (sufficient integer conditions on tan(psi/2) = p/q)
+        a1 == ArcAng(w, 1)
         Inter(obsW, pa, pb) ==
             LET big == IMax(pa, pb)
                 dom == WP(w) > 0 /\ (IF big = 1 THEN WP(w) < WQ(w) ELSE IF big = 2 THEN WP(w) <= (2 * (WQ(w) \div 5)) ELSE WP(w) <= WQ(w) \div 7)
